@@ -5,7 +5,7 @@ import copy, random
 from .. import sched, simlib, gen, model
 
 MANIFEST = dict(
-    engine="nsim", category="fault_enumeration",
+    engine="nsim+e2e", category="fault_enumeration",
     technique="runtime monitoring + fault injection: enumerated fault plans x exhaustive completion orders on small graphs; trace "
               "monitors, independent log parsers, retry invocation from each explored end state",
     text="For small graphs, fault plans (1-3 failing statements, exit codes {1,2,3,127,255}, outputs touched or untouched) are combined "
